@@ -171,6 +171,67 @@ func (r *ByteReader) ReadByte() (byte, error) {
 	}
 }
 
+// FileReader is shaped like *os.File: io.Reader, io.Seeker and io.ReaderAt, but no io.ByteReader
+// (so the codec interposes bufio and may be tempted to seek back what it buffered).
+type FileReader struct {
+	Reader
+	Seeks int
+}
+
+func (r *FileReader) Seek(off int64, whence int) (int64, error) {
+	r.Seeks++
+	var base int64
+	switch whence {
+	case io.SeekStart:
+		base = 0
+	case io.SeekCurrent:
+		base = int64(r.Pos)
+	case io.SeekEnd:
+		base = int64(len(r.Data))
+	default:
+		return 0, errors.New("simio: bad whence")
+	}
+	n := base + off
+	if n < 0 {
+		return 0, errors.New("simio: negative position")
+	}
+	if n > int64(len(r.Data)) {
+		n = int64(len(r.Data))
+	}
+	r.Pos = int(n)
+	return n, nil
+}
+
+func (r *FileReader) ReadAt(p []byte, off int64) (int, error) {
+	if off >= int64(len(r.Data)) {
+		return 0, io.EOF
+	}
+	n := copy(p, r.Data[off:])
+	if n < len(p) {
+		return n, io.EOF
+	}
+	return n, nil
+}
+
+// Shapes of readers.
+const (
+	ShapeByteReader = iota // io.Reader + io.ByteReader (like bufio.Reader, bytes.Buffer)
+	ShapePlain             // io.Reader only (like a network connection)
+	ShapeFile              // io.Reader + io.Seeker + io.ReaderAt (like *os.File)
+	NumShapes
+)
+
+// NewShapedReader returns a reader of the given shape over data.
+func NewShapedReader(data []byte, plan ReadPlan, shape int) io.Reader {
+	switch shape {
+	case ShapeByteReader:
+		return &ByteReader{Reader{Plan: plan, Data: data}}
+	case ShapeFile:
+		return &FileReader{Reader: Reader{Plan: plan, Data: data}}
+	}
+	return &Reader{Plan: plan, Data: data}
+}
+
 // NewReader returns a reader of the requested shape over data.
 func NewReader(data []byte, plan ReadPlan, byteReader bool) io.Reader {
 	if byteReader {
